@@ -259,6 +259,7 @@ void fs_arm(const FsConfig &cfg);
 void fs_disarm();
 int fs_call_count(int call);
 void fs_reset_counts(); // per-operation ordinals (fsim attaches faults to operations)
+void fs_begin_op(int op); // fs_reset_counts + buggify stream re-derived from (fault_seed, op)
 void fs_set_fault(const FsFault &f); // replaces the armed fault (and re-arms it)
 bool fs_fault_fired();
 // mtime helper for harness-created files (foreign files, materialised snapshots)
